@@ -1433,8 +1433,11 @@ func genCpuGo(l *loader) {
 		// the dispatcher over the routine names of the opcode table
 		sb.WriteString("/-- `instructions[opcode].proc(cpu)`: the routine named in the opcode table -/\ndef callProc : Proc → Ex Unit\n")
 		for _, pn := range strings.Fields("adc sbc and ora eor asl lsr rol ror inc dec bcc bcs beq bne bmi bpl bvc bvs bra brl bit brk cop clc cld cli clv sec sed sei cmp cpx cpy dex dey inx iny jmp jsl jsr lda ldx ldy nop pha php phx phy pla plp plx ply rti rtl rts sta stx sty stz tax tay tsx txa tya txs txy tyx mvn mvp phb phd phk pea per pld plb rep sep stp tcd tcs tdc tsc trb tsb wdm xba xce") {
+			// the routine whose name `Cpu.procOfName` reads as this constructor ("op_x", or the bare "x" cpualt uses for stp / wai)
 			if _, ok := g.funcs["op_"+pn]; ok {
 				fmt.Fprintf(&sb, "  | .%s => op_%s\n", pn, pn)
+			} else if fn, ok := g.funcs[pn]; ok && !fn.pure && !fn.isBus {
+				fmt.Fprintf(&sb, "  | .%s => %s\n", pn, pn)
 			} else {
 				fmt.Fprintf(&sb, "  | .%s => Cpu.GoPrim.fatal\n", pn)
 			}
